@@ -416,6 +416,9 @@ def contains(eng, st, container, x, node, spec=False):
 
 
 def get_attr(eng, st, base, attr, node, spec=False):
+    if isinstance(base, Val) and isinstance(base.ty, TOpt) and isinstance(base.ty.inner, TGraph):
+        eng.safety(st, z3.Not(base.ty.is_none(base.t)), node, 'attribute-of-None', spec)
+        base = Val(base.ty.inner, base.ty.get(base.t))
     if isinstance(base, Val) and isinstance(base.ty, TGraph):
         if attr == 'nodes':
             return NodesOf(base)
